@@ -225,21 +225,22 @@ def check_snapshot_stream(res, E, visits):
     res.extra["snapshot_stream_paths"] = len(paths)
     return n
 
-def check_arc_iter(res, E):
-    """One step of DeltaArcIter::next from an arbitrary valid iterator state (type being processed, index) over
-    lists of arbitrary lengths: it returns the next item of the concatenation origins ++ router keys ++ ASPAs
+def check_arc_iter(res, E, file="src/payload/delta.rs", ty="DeltaArcIter", meth="next", trait="PayloadDiff", container="PayloadDelta",
+                   get_re=r"(StandardDelta|AspaDelta)(::<.*>)?::get$"):
+    """One step of the shared iterator's next() from an arbitrary valid iterator state (type being processed, index)
+    over lists of arbitrary lengths: it returns the next item of the concatenation origins ++ router keys ++ ASPAs
     and leaves the iterator at the following position; None only at the end."""
     import nativetest
-    body = E.prog.find("src/payload/delta.rs", "DeltaArcIter", "next", trait="PayloadDiff")
-    res.functions.append("routinator::payload::delta::DeltaArcIter::next (MIR, %d blocks): inductive step over (type, index)" % len(body.blocks))
-    flds = mir.struct_fields("DeltaArcIter", "src/payload/delta.rs")
+    body = E.prog.find(file, ty, meth, trait=trait) if trait else E.prog.find(file, ty, meth)
+    res.functions.append("%s::%s (MIR, %d blocks): inductive step over (type, index)" % (ty, meth, len(body.blocks)))
+    flds = mir.struct_fields(ty, file)
     i_ty, i_nx = flds.index("current_type"), flds.index("next")
-    dflds = mir.struct_fields("PayloadDelta", "src/payload/delta.rs")
+    dflds = mir.struct_fields(container, file)
     lists = {dflds.index("origins"): 0, dflds.index("router_keys"): 1, dflds.index("aspas"): 2}
-    selfp = mir.Opq("&mut DeltaArcIter", "self")
-    phase = z3.Int("iter_type")
-    nxt = z3.BitVec("iter_next", 64)
-    lens = [z3.BitVec("len_%d" % k, 64) for k in range(3)]
+    selfp = mir.Opq("&mut " + ty, "self")
+    phase = z3.Int("iter_type_" + ty)
+    nxt = z3.BitVec("iter_next_" + ty, 64)
+    lens = [z3.BitVec("len_%s_%d" % (ty, k), 64) for k in range(3)]
     E.solver.add(z3.And(phase >= 0, phase <= 2, *[z3.ULT(l, 1 << 32) for l in lens]))
     E.solver.add(z3.And([z3.Implies(phase == k, z3.ULE(nxt, lens[k])) for k in range(3)]))
     consts = {r"PayloadType::Origin$": {("disc",): z3.IntVal(0)}, r"PayloadType::RouterKey$": {("disc",): z3.IntVal(1)},
@@ -255,13 +256,13 @@ def check_arc_iter(res, E):
         idx = argvals[1].get(())
         k = lists.get(a.loc[-1][1]) if isinstance(a, mir.Ref) and a.loc and a.loc[-1][0] == "f" else None
         if k is None or not (mir.is_z(idx) or isinstance(idx, int)):
-            raise mir.Inconclusive("DeltaArcIter::next: get() on an unknown list / index (%r, %r)" % (a, idx))
+            raise mir.Inconclusive("%s::%s: get() on an unknown list / index (%r, %r)" % (ty, meth, a, idx))
         idx = idx if mir.is_z(idx) else z3.BitVecVal(idx, 64)
         st.events.append(mir.Event("LIST-GET", [{(): k}, {(): idx}], None, ("", ""), "call", callee))
         return {("disc",): z3.If(z3.ULT(idx, lens[k]), z3.IntVal(1), z3.IntVal(0)),
                 (("v", "Some"), ("f", 0)): mir.Opq("item", "item_%d" % k)}
     paths = E.explore(body, max_visits=2, arg_values={"_1": {(): selfp}}, pre=pre, consts=consts, follow_panics=True,
-                      models={r"(StandardDelta|AspaDelta)(::<.*>)?::get$": m_get})
+                      models={get_re: m_get})
     # the specification
     idx1 = z3.If(phase == 1, nxt, z3.BitVecVal(0, 64))
     idx2 = z3.If(phase == 2, nxt, z3.BitVecVal(0, 64))
@@ -278,14 +279,14 @@ def check_arc_iter(res, E):
         n += 1
         if p.kind != "return":
             if E.feasible(p.cond, z3.BoolVal(True)) and bad is None:
-                bad = (p, "DeltaArcIter::next can panic / diverge from a valid iterator state (%s)" % p.kind, E.model(p.cond))
+                bad = (p, "%s::%s can panic / diverge from a valid iterator state (%s)" % (ty, meth, p.kind), E.model(p.cond))
             continue
         d = p.ret.get(("disc",))
         gets = [e for e in p.events if e.name == "LIST-GET"]
         ty1 = p.mem.get(base + (("f", i_ty), "disc"), phase)
         nx1 = p.mem.get(base + (("f", i_nx),), nxt)
         if d is None or not gets:
-            res.inconclusive.append("DeltaArcIter::next path %d: no discriminant / no list access" % i)
+            res.inconclusive.append("%s::%s path %d: no discriminant / no list access" % (ty, meth, i))
             continue
         k_last, i_last = gets[-1].args[0].get(()), gets[-1].args[1].get(())
         some = (d == 1)
@@ -300,17 +301,17 @@ def check_arc_iter(res, E):
                 ("returns item %s of list %s instead of item %s of list %s" % (m.eval(i_last, True), k_last, m.eval(want_i, True), m.eval(want_k, True)))
                 if z3.is_true(m.eval(some, True)) else "returns None although items are left"), m)
     res.distinct += n
-    res.samples.append({"arc_iter_paths": n})
+    res.samples.append({"arc_iter_paths": n, "iterator": ty})
     if n < 4:
-        res.inconclusive.append("vacuity: DeltaArcIter::next explored %d paths" % n)
+        res.inconclusive.append("vacuity: %s::%s explored %d paths" % (ty, meth, n))
     if bad:
         p, what, m = bad
         failed, passed, out = nativetest.run_native_test("native_c18_iter", "c18_native_arc_iter_complete")
         mm = re.search(r"C18-NATIVE-ITER (.*)", out)
         res.evaluations += 1
-        fn = mprop.write_cex(res, "arc_iter_step", p, E, what + "\n\nnative replay: " + (mm.group(1) if mm else out[-1500:]), m)
+        fn = mprop.write_cex(res, "arc_iter_step_" + ty, p, E, what + "\n\nnative replay: " + (mm.group(1) if mm else out[-1500:]), m)
         if failed:
-            res.violation("mir:delta-iterator-skips-items", "the shared-delta iterator behind /json-delta does not yield every change exactly once: "
+            res.violation("mir:%s-skips-items" % ("delta-iterator" if ty == "DeltaArcIter" else "snapshot-iterator"), "the shared iterator (%s) behind /json-delta does not yield every item exactly once: " % ty
                           + what + "; reproduced natively: " + (mm.group(1)[:300] if mm else "test failed"), fn)
         elif passed:
             res.inconclusive.append("delta iterator: %s - not reproduced natively" % what)
@@ -335,6 +336,9 @@ def run(res, tier):
         n += stream_run(res, E, kind, 2 if tier == "quick" else 3)
     E = mprop.engine(res)
     check_arc_iter(res, E)
+    E = mprop.engine(res)
+    check_arc_iter(res, E, file="src/payload/snapshot.rs", ty="SnapshotArcIter", meth="next_with_info", trait=None, container="PayloadSnapshot",
+                   get_re=r"PayloadCollection(::<.*>)?::get$|Vec(::<.*>)?::get$|core::slice::.*get$|\[.*\]>?::get$|::get$")
     res.distinct += n
     if n < 20:
         res.inconclusive.append("vacuity: only %d stream paths" % n)
@@ -347,7 +351,7 @@ def run(res, tier):
     res.bounds.append("ONE call of next() from an arbitrary stream state satisfying the representation invariant (which every "
                       "returning path is shown to re-establish): covers any number of items and chunks by induction; inside "
                       "one call the item loop is unrolled to %d items; `vec.len() > 64000` is a free boolean at every test" % (visits - 1))
-    res.assumptions += ["the stream runs take the delta iterator as yielding each item of the change set once with its action; DeltaArcIter::next is checked separately by an inductive step (snapshot iterators: PayloadSnapshot::payload chains, not checked)",
+    res.assumptions += ["the stream runs take the delta iterator as yielding each item of the change set once with its action; DeltaArcIter::next and SnapshotArcIter::next_with_info are checked separately by an inductive step",
                         "Vec::len() is arbitrary at each test: chunk boundaries fall anywhere"]
     res.outside += ["the JSON text of the individual pieces (append_header / append_payload format strings run through "
                     "core::fmt: out of reach for CBMC within the caps, see C22's measurements) and the header's session/serial values"]
